@@ -3,6 +3,7 @@ package sim
 import (
 	"crypto/sha256"
 	"encoding/hex"
+	"encoding/json"
 	"fmt"
 	"os"
 	"path/filepath"
@@ -166,6 +167,13 @@ func (m *monState) checkSaveStep(si *StepInfo, pre, post *Snap, evs []Event) {
 	run := m.run
 	w := run.cur
 	now := post.At
+	if w.mem != nil {
+		// SaveToStore has more than one hook point in front of its lock; the step that matters is the one in
+		// which the removal phase ran and the snapshot was handed to the store
+		if n, _ := w.mem.counts(); n == 0 || w.mem.handed[n-1].Step != si.N {
+			return
+		}
+	}
 	removed := map[string]*JobSnap{}
 	for name, j := range pre.Jobs {
 		if post.Jobs[name] == nil {
@@ -295,6 +303,26 @@ func (run *Run) listLogs(w *World) map[string]string {
 		return nil
 	})
 	return res
+}
+
+// checkSavedDataStable (C12 r6b): what a save finally wrote must still be the snapshot that
+// was built for it — the data must not change while the save is in progress.
+func (m *monState) checkSavedDataStable(si *StepInfo) {
+	w := m.run.cur
+	if w == nil || w.mem == nil {
+		return
+	}
+	_, completed := w.mem.counts()
+	for ; m.stableChecked < completed; m.stableChecked++ {
+		idx := w.mem.completed[m.stableChecked]
+		snap := m.snapAtSave[idx]
+		if snap == nil {
+			continue
+		}
+		if d := diffStore(w.mem.handed[idx].Data, snap); d != "" {
+			m.run.violate("C12", "r6b", "step %d: a save that was handed its snapshot at step %d completed, but the data it wrote is not that snapshot any more: %s", si.N, w.mem.handed[idx].Step, d)
+		}
+	}
 }
 
 // ---------------------------------------------------------------------------
@@ -445,6 +473,24 @@ func (m *monState) onRestart(nw, old *World) {
 			run.violate("C10", "r3", "job %s is reported after restart but is not in the persisted snapshot", name)
 		}
 	}
+	// r5: the persisted state is one complete snapshot the old world built (job set and content)
+	if len(m.snapAtSave) > 0 {
+		match := canonPersisted(loaded) == m.initialLoaded // nothing newer than what the old world itself started from
+		first := ""
+		for _, snap := range m.snapAtSave {
+			d := diffStore(loaded, snap)
+			if d == "" {
+				match = true
+				break
+			}
+			if first == "" {
+				first = d
+			}
+		}
+		if !match {
+			run.violate("C10", "r5", "the persisted state loaded after the restart is none of the %d snapshots the runner built before the crash (e.g. %s)", len(m.snapAtSave), first)
+		}
+	}
 	// r4: every job that was finished in the snapshot is reported as the old world reported it
 	n := 0
 	for name, p := range inSnap {
@@ -473,6 +519,8 @@ func (m *monState) onRestart(nw, old *World) {
 	m.shutdownJobsRunningAtBegin = nil
 	m.forcedCancel = map[string]bool{}
 	m.snapAtSave = map[int]*Snap{}
+	m.initialLoaded = canonPersisted(loaded)
+	m.stableChecked = 0
 	m.lastChangeAt = s.At
 }
 
@@ -483,4 +531,19 @@ func sortedPersisted(pd *store.PersistedData) []string {
 	}
 	sort.Strings(names)
 	return names
+}
+
+
+// canonPersisted: order-independent rendering of a persisted snapshot.
+func canonPersisted(pd *store.PersistedData) string {
+	if pd == nil {
+		return "[]"
+	}
+	var items []string
+	for i := range pd.Jobs {
+		b, _ := json.Marshal(pd.Jobs[i])
+		items = append(items, string(b))
+	}
+	sort.Strings(items)
+	return "[" + strings.Join(items, ",") + "]"
 }
